@@ -644,7 +644,7 @@ func main() {
 
 	nMod, nE2E := 3000, 400
 	if *tier == "thorough" {
-		nMod, nE2E = 40000, 4000
+		nMod, nE2E = 24000, 4000
 	}
 
 	// ---- 1. modifier alone
